@@ -62,7 +62,7 @@ def run(ctx) -> int:
     flags = semcheck.flags_only("projection")
     cases = semprop.oracle_cases(ctx, [flags], "voc", 110 if ctx.quick() else 700, 80 if ctx.quick() else 3000,
                                  origins={"projection", "ast", "regression", "symmetry", "literal_duplication"}, n_inst=5,
-                                 extra_programs=EXTRA + extra)
+                                 extra_programs=EXTRA + extra, n_hand=len(EXTRA))
     semprop.run_oracle(ctx, cases, None)
     return core.finish(ctx, LEVEL, TRUSTED,
                        ["ngo's binding analysis is compared with gringo only through the oracle (unsafe results are failing inputs)"], RULE)
